@@ -1,0 +1,109 @@
+//go:build verif
+
+package actionlint
+
+// C03 (parser side): each key of a section is stored into the AST field that the visitor and the rules
+// read for that key, and into no other. `body_stores T.f iff C`: in every iteration of the section loop a
+// store to field f of a T is executed iff C. The key <-> field table is taken from the workflow syntax
+// reference (and the field names of ast.go), not from the code.
+
+//@ func (*parser).parse
+//@   loop "range p.parseMapping(\"workflow\", n.Content[0], false, true)":
+//@     body_stores [C03] Workflow.Name iff kv.id == "name"
+//@     body_stores [C03] Workflow.On iff kv.id == "on"
+//@     body_stores [C03] Workflow.Permissions iff kv.id == "permissions"
+//@     body_stores [C03] Workflow.Env iff kv.id == "env"
+//@     body_stores [C03] Workflow.Defaults iff kv.id == "defaults"
+//@     body_stores [C03] Workflow.Concurrency iff kv.id == "concurrency"
+//@     body_stores [C03] Workflow.Jobs iff kv.id == "jobs"
+//@     body_stores [C03] Workflow.RunName iff kv.id == "run-name"
+
+//@ func (*parser).parseWebhookEvent
+//@   loop "range p.parseSectionMapping(name.Value, n, true, true)":
+//@     body_stores [C03] WebhookEvent.Types iff kv.id == "types"
+//@     body_stores [C03] WebhookEvent.Branches iff kv.id == "branches"
+//@     body_stores [C03] WebhookEvent.BranchesIgnore iff kv.id == "branches-ignore"
+//@     body_stores [C03] WebhookEvent.Tags iff kv.id == "tags"
+//@     body_stores [C03] WebhookEvent.TagsIgnore iff kv.id == "tags-ignore"
+//@     body_stores [C03] WebhookEvent.Paths iff kv.id == "paths"
+//@     body_stores [C03] WebhookEvent.PathsIgnore iff kv.id == "paths-ignore"
+//@     body_stores [C03] WebhookEvent.Workflows iff kv.id == "workflows"
+
+//@ func (*parser).parseConcurrency
+//@   loop "range p.parseSectionMapping(\"concurrency\", n, false, true)":
+//@     body_stores [C03] Concurrency.Group iff kv.id == "group"
+//@     body_stores [C03] Concurrency.CancelInProgress iff kv.id == "cancel-in-progress"
+
+//@ func (*parser).parseEnvironment
+//@   loop "range p.parseSectionMapping(\"environment\", n, false, true)":
+//@     body_stores [C03] Environment.Name iff kv.id == "name"
+//@     body_stores [C03] Environment.URL iff kv.id == "url"
+
+//@ func (*parser).parseStrategy
+//@   loop "range p.parseSectionMapping(\"strategy\", n, false, true)":
+//@     body_stores [C03] Strategy.Matrix iff kv.id == "matrix"
+//@     body_stores [C03] Strategy.FailFast iff kv.id == "fail-fast"
+//@     body_stores [C03] Strategy.MaxParallel iff kv.id == "max-parallel"
+
+//@ func (*parser).parseContainer
+//@   loop "range p.parseSectionMapping(sec, n, false, true)":
+//@     body_stores [C03] Container.Image iff kv.id == "image"
+//@     body_stores [C03] Container.Env iff kv.id == "env"
+//@     body_stores [C03] Container.Ports iff kv.id == "ports"
+//@     body_stores [C03] Container.Volumes iff kv.id == "volumes"
+//@     body_stores [C03] Container.Options iff kv.id == "options"
+
+//@ func (*parser).parseJob
+//@   loop "range p.parseMapping(fmt.Sprintf(\"%q job\", id.Value), n, false, true)":
+//@     body_stores [C03] Job.Name iff kv.id == "name"
+//@     body_stores [C03] Job.Needs iff kv.id == "needs"
+//@     body_stores [C03] Job.RunsOn iff kv.id == "runs-on"
+//@     body_stores [C03] Job.Permissions iff kv.id == "permissions"
+//@     body_stores [C03] Job.Environment iff kv.id == "environment"
+//@     body_stores [C03] Job.Concurrency iff kv.id == "concurrency"
+//@     body_stores [C03] Job.Outputs iff kv.id == "outputs"
+//@     body_stores [C03] Job.Env iff kv.id == "env"
+//@     body_stores [C03] Job.Defaults iff kv.id == "defaults"
+//@     body_stores [C03] Job.If iff kv.id == "if"
+//@     body_stores [C03] Job.Steps iff kv.id == "steps"
+//@     body_stores [C03] Job.TimeoutMinutes iff kv.id == "timeout-minutes"
+//@     body_stores [C03] Job.Strategy iff kv.id == "strategy"
+//@     body_stores [C03] Job.ContinueOnError iff kv.id == "continue-on-error"
+//@     body_stores [C03] Job.Container iff kv.id == "container"
+//@     body_stores [C03] Job.Services iff kv.id == "services"
+//@     body_stores [C03] WorkflowCall.Uses iff kv.id == "uses"
+//@     body_stores [C03] WorkflowCall.Inputs iff kv.id == "with"
+
+//@ func (*parser).parseStep
+//@   loop "range p.parseMapping(\"element of \\\"steps\\\" section\", n, false, true)":
+//@     body_stores [C03] Step.ID iff kv.id == "id"
+//@     body_stores [C03] Step.If iff kv.id == "if"
+//@     body_stores [C03] Step.Name iff kv.id == "name"
+//@     body_stores [C03] Step.Env iff kv.id == "env"
+//@     body_stores [C03] Step.ContinueOnError iff kv.id == "continue-on-error"
+//@     body_stores [C03] Step.TimeoutMinutes iff kv.id == "timeout-minutes"
+//@     body_stores [C03] ExecAction.Uses iff kv.id == "uses" && istype(ret.Exec, "*ExecAction")
+//@     body_stores [C03] ExecAction.Inputs iff kv.id == "with" && istype(ret.Exec, "*ExecAction")
+//@     body_stores [C03] ExecRun.Run iff kv.id == "run" && istype(ret.Exec, "*ExecRun")
+//@     body_stores [C03] ExecRun.RunPos iff kv.id == "run" && istype(ret.Exec, "*ExecRun")
+//@     body_stores [C03] ExecRun.Shell iff kv.id == "shell" && istype(ret.Exec, "*ExecRun")
+//@     body_stores [C03] ExecRun.WorkingDirectory iff (kv.id == "run" || kv.id == "shell" || kv.id == "working-directory") && istype(ret.Exec, "*ExecRun")
+
+//@ func (*parser).parseRunsOn
+//@   loop "range p.parseSectionMapping(\"runs-on\", n, false, true)":
+//@     body_stores [C03] Runner.Group iff kv.id == "group"
+
+//@ func (*parser).parseDefaults
+//@   loop "range p.parseSectionMapping(\"run\", kv.val, false, true)":
+//@     body_stores [C03] DefaultsRun.Shell iff attr.id == "shell"
+//@     body_stores [C03] DefaultsRun.WorkingDirectory iff attr.id == "working-directory"
+
+//@ func (*parser).parseContainer
+//@   loop "range p.parseSectionMapping(\"credentials\", kv.val, false, true)":
+//@     body_stores [C03] Credentials.Username iff c.id == "username"
+//@     body_stores [C03] Credentials.Password iff c.id == "password"
+
+//@ func (*parser).parseStep
+//@   loop "range with":
+//@     body_stores [C03] ExecAction.Entrypoint iff input.id == "entrypoint"
+//@     body_stores [C03] ExecAction.Args iff input.id == "args"
